@@ -30,15 +30,32 @@ TIME_EXPANSIONS = [1.0, 1.0, 10.0, 0.5, 2.5, 0.1]
 AUDIO_FILES = ["a.wav", "sub dir/b.wav", "ünï/c.wav"]
 
 
-def wav_header(sr, ch, frames, bits=16) -> bytes:
+PCM_GUID = bytes.fromhex("0100000000001000800000aa00389b71")
+
+
+def wav_header(sr, ch, frames, bits=16, layout="plain") -> bytes:
+    """RIFF/WAVE header. Layouts: the canonical 44 bytes; a LIST/INFO chunk
+    between ``fmt `` and ``data`` (what most editors write); a
+    WAVE_FORMAT_EXTENSIBLE ``fmt `` chunk (what recorders write for 24 bit
+    or more than two channels)."""
     width = bits // 8
     block = ch * width
     size = frames * block
-    return struct.pack(
-        "<4sI4s4sIHHIIHH4sI",
-        b"RIFF", (size + 36) & 0xFFFFFFFF, b"WAVE", b"fmt ", 16, 1, ch, sr,
-        (sr * block) & 0xFFFFFFFF, block, bits, b"data", size & 0xFFFFFFFF,
-    )
+    if layout == "extensible":
+        fmt = struct.pack(
+            "<HHIIHHHHI16s", 0xFFFE, ch, sr, (sr * block) & 0xFFFFFFFF, block,
+            bits, 22, bits, 0, PCM_GUID,
+        )
+    else:
+        fmt = struct.pack(
+            "<HHIIHH", 1, ch, sr, (sr * block) & 0xFFFFFFFF, block, bits
+        )
+    chunks = struct.pack("<4sI", b"fmt ", len(fmt)) + fmt
+    if layout == "list":
+        info = b"INFOISFT" + struct.pack("<I", 14) + b"simlab writer\0"
+        chunks += struct.pack("<4sI", b"LIST", len(info)) + info
+    body = b"WAVE" + chunks + struct.pack("<4sI", b"data", size & 0xFFFFFFFF)
+    return struct.pack("<4sI", b"RIFF", (len(body) + size) & 0xFFFFFFFF) + body
 
 
 def sample_values(salt, first, count, ch, bits=16) -> np.ndarray:
@@ -67,9 +84,17 @@ def _decode(text, shape=None):
 
 
 def floors(x_float_product, exact: Fraction):
-    """Candidate floors: float evaluation (what any float implementation
-    gets) and exact rational evaluation; they differ only on boundaries."""
-    return {int(math.floor(x_float_product)), int(math.floor(exact))}
+    """Candidate floors: the exact rational value's, the float product's, and
+    -- when the exact value is within a few ulps of a whole number -- both
+    sides of it: which float expression an implementation uses (x*sr,
+    x/(1/sr), round-then-floor) is its own business; they differ only there."""
+    out = {int(math.floor(x_float_product)), int(math.floor(exact))}
+    if exact.denominator == 1:
+        return out  # a whole number of samples: nothing to argue about
+    eps = Fraction(abs(exact)) * Fraction(1, 1 << 50)
+    out.add(int(math.floor(exact - eps)))
+    out.add(int(math.floor(exact + eps)))
+    return out
 
 
 class AudioSim(AoefSim):
@@ -121,7 +146,8 @@ class AudioSim(AoefSim):
         path = self.apath(f)
         os.makedirs(os.path.dirname(path), exist_ok=True)
         raw = (
-            wav_header(st["sr"], st["ch"], st["header"], st["bits"])
+            wav_header(st["sr"], st["ch"], st["header"], st["bits"],
+                       st.get("layout", "plain"))
             + pcm_bytes(st["frames"], st["bits"])[: st["payload_bytes"]]
         )
         if st["broken"]:
@@ -162,8 +188,10 @@ class AudioSim(AoefSim):
             "sr": op["sr"], "ch": op["ch"], "header": op["frames"],
             "salt": op["salt"], "frames": frames, "bits": bits,
             "payload_bytes": frames.size * bits // 8, "broken": 0,
+            "layout": op.get("layout", "plain"),
         }
         self.probes.hit(f"file:pcm-{bits}")
+        self.probes.hit(f"file:header-{op.get('layout', 'plain')}")
         if op["frames"] >= 65_536:
             self.probes.hit("file:>=65536-frames")
         raw = self.write_file(op["f"])
@@ -421,7 +449,13 @@ class AudioSim(AoefSim):
             return
         n = shape[0]
         data = _decode(reply["data"], (n, shape[1]))
-        tvals = _decode(reply["coords"]["time"]["values"]) if n else np.zeros(0)
+        tentry = reply["coords"].get("time")
+        if n and (tentry is None or "values" not in tentry):
+            self.violate("C15", "C15:time-coord", "clip without a time coordinate")
+            return
+        tvals = _decode(tentry["values"]) if n else np.zeros(0)
+        if tentry is None:
+            tentry = {"n": 0, "step": None}
         ok_data = ok_time = False
         for o in sorted(o_c):
             want = np.zeros((n, st["ch"]))
@@ -450,11 +484,11 @@ class AudioSim(AoefSim):
                 f"not (offset+i)/samplerate; first={tvals[0]!r}",
             )
             return
-        self.axis("load_clip", "time", reply["coords"]["time"], None)
+        self.axis("load_clip", "time", tentry, None)
         self.arrays[op["h"]] = {
             "node": op["node"], "alive": True, "kind": "clip",
             "first": float(tvals[0]) if n else None,
-            "step": reply["coords"]["time"]["step"], "n": n,
+            "step": tentry["step"], "n": n,
             "offset": o, "rec": op["r"], "data": data,
             "fp": self._fingerprint(reply),
         }
@@ -510,16 +544,36 @@ class AudioSim(AoefSim):
         self.probes.hit("C15:load_recording-checked")
         shape = reply["shape"]
         data = _decode(reply["data"], tuple(shape))
-        want = disk.astype(np.float64) / float(1 << (st["bits"] - 1))
-        if tuple(shape) != want.shape or not np.array_equal(want, data):
+        # The statement fixes no frame count for load_recording (with stale
+        # metadata a whole-file read and a read of `duration` seconds differ
+        # and both are legitimate); what it fixes through load_clip is the
+        # content: frame j is the file's frame j, zero past the end of file.
+        if len(shape) != 2 or reply["dims"] != ["time", "channel"] or shape[1] != st["ch"]:
+            self.violate(
+                "C15", "C15:frames",
+                f"load_recording: dims {reply['dims']} shape {shape}, file has "
+                f"{st['ch']} channels",
+            )
+            return
+        want = np.zeros((shape[0], st["ch"]))
+        have = disk[: shape[0]]
+        want[: len(have)] = have.astype(np.float64) / float(1 << (st["bits"] - 1))
+        if shape[0] != len(disk):
+            self.probes.hit("C15:load_recording-length-differs-from-file")
+        if not np.array_equal(want, data):
             self.violate(
                 "C15", "C15:data",
                 f"load_recording returned shape {shape}, file holds "
-                f"{want.shape}; samples equal: "
-                f"{tuple(shape) == want.shape and np.array_equal(want, data)}",
+                f"{len(disk)} frames: frame j is not the file's frame j "
+                f"(zero past the end of file)",
             )
             return
-        entry = reply["coords"]["time"]
+        entry = reply["coords"].get("time")
+        if entry is None:
+            if shape[0]:
+                self.violate("C15", "C15:time-coord",
+                             "load_recording: no time coordinate")
+            entry = {"n": 0, "step": None}
         self.axis("load_recording", "time", entry, 0.0)
         if entry["n"]:
             tvals = _decode(entry["values"])
@@ -595,12 +649,19 @@ class AudioSim(AoefSim):
             return self.record(op, "skipped")
         node = self.node(src["node"])
         kind = op["op"]
-        if kind == "resample" and src["n"] * op["target"] * src["step"] > 20000:
+        if kind == "resample" and (
+            src["n"] * op["target"] * src["step"] > 150_000
+            or src["n"] * op["target"] * src["step"] * src.get("width", 1) > 1_500_000
+        ):
             return self.record(op, "skipped-too-large")
+        if kind == "spectrogram" and src.get("spec_like"):
+            # a spectrogram of a spectrogram is not a thing
+            return self.record(op, "skipped")
         if kind == "resample":
             reply = node.call(
                 "a_resample", source=op["src"],
                 target_samplerate=op["target"], handle=op["h"],
+                transpose=bool(op.get("transpose")),
                 _env=self.env_audio(None),
             )
         else:
@@ -625,6 +686,10 @@ class AudioSim(AoefSim):
         self.checked_arrays += 1
         self.probes.hit("C15:derived-array-checked")
         self.probes.hit(f"C15:{kind}-checked")
+        if kind == "resample" and (src.get("spec_like") or op.get("transpose")):
+            self.probes.hit("C15:resample-time-is-not-axis-0")
+        if kind == "spectrogram" and op["hop_samples"] > op["window_samples"]:
+            self.probes.hit("C15:spectrogram-hop-longer-than-window")
         if frac:
             self.probes.hit("C15:spectrogram-fractional-window-or-hop")
         if kind == "spectrogram" and op["window_samples"] >= 1024:
@@ -638,10 +703,12 @@ class AudioSim(AoefSim):
                 "node": src["node"], "alive": True, "kind": kind,
                 "first": float(_decode(tentry["values"])[0]),
                 "step": tentry["step"], "n": tentry["n"],
+                # spectrograms (and what is resampled from them) feed
+                # resample again, never compute_spectrogram
+                "spec_like": kind == "spectrogram" or bool(src.get("spec_like")),
+                # elements per time step
+                "width": int(np.prod(reply["shape"])) // max(1, tentry["n"]),
             }
-        if kind == "spectrogram":
-            # spectrograms are not fed into resample/spectrogram again
-            self.arrays.get(op["h"], {}).update(alive=False)
 
 
 # -------------------------------------------------------------- generation
@@ -666,6 +733,8 @@ def draw_run_cfg(rng, focus, tier):
         "p_boundary": rng.choice([0.2, 0.5, 0.8]),
         "relative": rng.choice([False, False, True, "cwd"]),
         "bits": rng.choice([[16], [16], [16, 24, 32], [24], [32]]),
+        "layouts": rng.choice([["plain"], ["plain"], ["plain", "list", "extensible"],
+                               ["list"], ["extensible"]]),
     }
 
 
@@ -690,7 +759,8 @@ def gen_ops(rng, cfg, seed_tag):
                              rng.randint(0, cfg["max_frames"])])
         ops.append({"op": "create", "f": f, "sr": sr, "ch": rng.choice(cfg["channels"]),
                     "frames": frames, "salt": rng.randrange(1 << 16),
-                    "bits": rng.choice(cfg["bits"])})
+                    "bits": rng.choice(cfg["bits"]),
+                    "layout": rng.choice(cfg.get("layouts", ["plain"]))})
         files[f] = [sr, frames]
         return f
 
@@ -751,15 +821,20 @@ def gen_ops(rng, cfg, seed_tag):
         arrays.append((hh, n))
         return hh
 
+    spec_like = set()
+
     def derive(src, rec_sr=None, max_window=256):
         hh = h()
-        if rng.random() < 0.4:
+        if src in spec_like or rng.random() < 0.4:
+            if src in spec_like:
+                spec_like.add(hh)
             if rec_sr and rng.random() < 0.7:
                 ratio = rng.choice([0.5, 2.0, 1 / 3, 1.5, 0.9, 1.1, 0.25, 3.0])
                 target = max(1, int(rec_sr * ratio))
             else:
                 target = rng.choice([4000, 8000, 22050, 3, 96000, 11, 44100, 6000])
-            ops.append({"op": "resample", "src": src, "h": hh, "target": target})
+            ops.append({"op": "resample", "src": src, "h": hh, "target": target,
+                        "transpose": rng.random() < 0.25})
             arrays.append((hh, None))
         else:
             if rng.random() < 0.5:
@@ -774,8 +849,13 @@ def gen_ops(rng, cfg, seed_tag):
             hop = rng.choice([1, 2, w // 4 or 1, w // 2, w])
             if not whole or rng.random() < 0.3:
                 hop = hop + rng.choice([0.5, 0.3, 0.75, 0.01])
+            spec_like.add(hh)
             ops.append({"op": "spectrogram", "src": src, "h": hh,
-                        "window_samples": window, "hop_samples": min(hop, window)})
+                        "window_samples": window,
+                        "hop_samples": (
+                            hop + rng.choice([1, w // 2 or 1]) if rng.random() < 0.08
+                            else min(hop, window)
+                        )})
         return hh
 
     def afault():
@@ -908,7 +988,8 @@ def prune_candidates(spec):
 
 
 SIM = AudioSim
-SIMPLIFY = {"fault": None, "audio_as": "str", "relative": False, "hash": False}
+SIMPLIFY = {"fault": None, "audio_as": "str", "relative": False, "hash": False,
+            "transpose": False, "layout": "plain"}
 NONTRIVIAL_RULE = {
     "C15": "run with >=1 fully checked load_clip whose window crosses or lies "
     "past the file's current end, or whose recording metadata is stale "
@@ -949,6 +1030,9 @@ ASSUMPTIONS = [
     "short reads into libsndfile, pre-emption inside a call and concurrent "
     "callers are not simulated (DESIGN 3.2)",
 ]
+SEAM_PROBES = {
+    "C15": ["sf_open_error", "sf_read_error", "sf_open_crash", "sf_read_crash"],
+}
 CORE_PROBES = {
     "C15": [
         "C15:clip-crosses-eof",
